@@ -341,7 +341,8 @@ class Node:
                             n._data = new_data
                 else:
                     # Move this one node to another slot in the map
-                    node_map[self._data_id].remove(self)
+                    # NOTE: `list.remove()` checks for equality, not identity!
+                    cur_nodes[:] = [n for n in cur_nodes if n is not self]
                     try:  # are we adding to existing clones again?
                         node_map[new_data_id].append(self)
                     except KeyError:  # now a singleton with a new data_id
